@@ -9,4 +9,10 @@ for f in *.tla; do
   tla-sany "$f" > /tmp/sany.$$ 2>&1 || { cat /tmp/sany.$$; rm -f /tmp/sany.$$; echo "SANY failed on $f"; exit 1; }
 done
 rm -f /tmp/sany.$$
+cd ..
+# non-vacuity of the model invariants: the mutant (token written after the size check) must violate them
+out=$(cd spec && timeout 300 tlc -workers 2 -metadir ${VERIF_SCRATCH:-/var/tmp}/xcv.setup.$$ -config XCryptMC_mutant.cfg XCryptMC.tla 2>&1; rm -rf ${VERIF_SCRATCH:-/var/tmp}/xcv.setup.$$)
+echo "$out" | grep -q 'Invariant .* is violated' || { echo "non-vacuity check failed: mutant model not rejected"; exit 1; }
+# the trace specification is bound to what is recorded: corrupted traces are rejected
+tools/selftest-binding.sh
 echo "setup ok"
